@@ -120,6 +120,11 @@ def gen_instance(rng):
         else:
             kind = "random"
             vecs = [qgen.unit(qgen.int_vector(rng, d, cplx)) for _ in range(k)]
+        if k >= 3 and rng.integers(8) == 0:
+            # the same state listed twice (two labels for one preparation): degenerate but inside the quantifier
+            i, j = (int(x) for x in rng.choice(k, size=2, replace=False))
+            vecs[j] = vecs[i].copy()
+            kind = kind + "+repeat"
         states = _shape_states(vecs, form, cplx)
     probs = qgen.dyadic_probs(rng, k)
     if k >= 3 and rng.integers(6) == 0:
